@@ -94,3 +94,10 @@ pub fn probe_ascii_case_holds(s: &str) {
         i += 1;
     }
 }
+/// encoding validation only (not a claim): to_uppercase: native build and encoding agree, on concrete strings, about
+/// the length of the result and one of its bytes
+pub fn probe_unicode_case_holds(s: &str, n: usize, k: usize, v: u8) {
+    let u = s.to_uppercase();
+    assert!(u.len() == n);
+    assert!(k >= n || u.as_bytes()[k] == v);
+}
